@@ -17,7 +17,7 @@ pub struct CliCase {
     pub name: u8,
     pub subdir: bool,
     pub abs: bool,
-    /// 0 default, 1 custom writable, 2 missing parent directory, 3 path is an existing directory
+    /// 0 default, 1 custom writable, 2 missing parent directory, 3 path is an existing directory, 4 /dev/full (can be created, cannot be written)
     pub o: u8,
     pub e: u8,
     pub v: bool,
@@ -32,8 +32,8 @@ pub fn cli_case() -> impl Strategy<Value = CliCase> {
         0u8..5,
         any::<bool>(),
         any::<bool>(),
-        prop_oneof![4 => Just(0u8), 3 => Just(1u8), 1 => Just(2u8), 1 => Just(3u8)],
-        prop_oneof![4 => Just(0u8), 3 => Just(1u8), 1 => Just(2u8), 1 => Just(3u8)],
+        prop_oneof![4 => Just(0u8), 3 => Just(1u8), 1 => Just(2u8), 1 => Just(3u8), 1 => Just(4u8)],
+        prop_oneof![4 => Just(0u8), 3 => Just(1u8), 1 => Just(2u8), 1 => Just(3u8), 1 => Just(4u8)],
         any::<bool>(),
         any::<bool>(),
         0u8..16,
@@ -118,12 +118,14 @@ pub fn plan(c: &CliCase, root: &Path) -> Planned {
         1 => (root.join("out").join("flash image.hex"), false),
         2 => (root.join("missing_parent").join("x.hex"), true),
         3 => (root.join("isdir.hex"), true),
+        4 => (PathBuf::from("/dev/full"), true),
         _ => (default_hex.clone(), false),
     };
     let (out_eep, eep_unwritable) = match c.e {
         1 => (root.join("out").join("ee.eep"), false),
         2 => (root.join("missing_parent_e").join("x.eep.hex"), true),
         3 => (root.join("isdir.eep.hex"), true),
+        4 => (PathBuf::from("/dev/full"), true),
         _ => (default_eep.clone(), false),
     };
     // pre-existing outputs with sentinel content
@@ -217,6 +219,11 @@ pub fn run_case(c: &CliCase, root: &Path, cli: &Path) -> Result<Result<(&'static
                 }
                 // flash image
                 let check = |path: &Path, image: &[u8], what: &str| -> Result<(), (String, String)> {
+                    if path == Path::new("/dev/full") {
+                        // nothing to read back from the device (and reading it never ends); it is only
+                        // reached here when there was nothing to write
+                        return Ok(());
+                    }
                     let rel = path.strip_prefix(root).unwrap_or(path).to_path_buf();
                     match std::fs::read(path) {
                         Ok(bytes) => {
